@@ -53,6 +53,7 @@ type Engine struct {
 	specDefs    map[string]*SpecDefine
 	loadErrs    []string
 	sealedCache map[string]sealedRes
+	flowMemo    map[string]fieldSet
 }
 
 var defaultPkgs = []string{
@@ -66,7 +67,7 @@ func loadEngine(repo string, patterns []string) (*Engine, error) {
 		allocSumm: map[*ssa.Function]*ModSet{}, modOverride: map[string][]string{}, funcTypeFrame: map[string]*ModSet{},
 		noInline: map[string]bool{}, typeIDs: map[string]int{}, typeByID: map[int]types.Type{}, globals: map[*ssa.Global]int64{},
 		funcs: map[*ssa.Function]int64{}, contracts: map[*ssa.Function]*Contract{}, ifaceCts: map[string]*Contract{},
-		funcTCts: map[string]*Contract{}, sealedCache: map[string]sealedRes{}, ghosts: map[string]SpecFun{}, specFuns: map[string]SpecFun{}, specDefs: map[string]*SpecDefine{}}
+		funcTCts: map[string]*Contract{}, sealedCache: map[string]sealedRes{}, flowMemo: map[string]fieldSet{}, ghosts: map[string]SpecFun{}, specFuns: map[string]SpecFun{}, specDefs: map[string]*SpecDefine{}}
 	cfg := &packages.Config{Mode: packages.LoadSyntax, Dir: repo, BuildFlags: []string{"-tags=verif"},
 		Env: append(os.Environ(), "GOFLAGS=-mod=mod", "GOPROXY=off", "GOSUMDB=off", "GOTOOLCHAIN=local")}
 	pkgs, err := packages.Load(cfg, patterns...)
